@@ -5,6 +5,7 @@ CONSTANTS
   MaxNow = 1000000
   MaxStep = 1
   MaxOps = 1000000
+  Chain = "none"
   Variant = "ok"
 CONSTRAINT Done
 INVARIANTS Accepted WaitGroupSane
